@@ -57,16 +57,29 @@ def run(rep: core.Report):
     uc = {}
     for s in ast.walk(rinit):
         if isinstance(s, ast.Assign) and core.src(s.targets[0]) in ("self._unit_conversion", "self._unit_conversion_classical"):
-            uc[core.src(s.targets[0])] = tr2.expr(s.value, {})
+            uc[core.src(s.targets[0])] = tr2.expr(s.value, symalg.local_env(tr2, rinit))
     if len(uc) != 2:
         raise AnalysisError("RandomDisplacements.__init__: unit conversion factors vanished")
     gs = core.find_def(RD, "RandomDisplacements._get_sigma")
+    # by role: the amplitude is the first element of the returned pair; its value at the end of each arm of the
+    # test on the distribution function, temporaries inlined
     sig = {}
-    for s in ast.walk(gs):
-        if isinstance(s, ast.Assign) and core.src(s.targets[0]) == "sigma" and "np.sqrt" in core.src(s.value) and "np.where" not in core.src(s.value):
-            key = "classical" if "classical" in core.src(s.value) else "quantum"
-            tr3 = symalg.PyTranslator({"T": T, "freqs": F, "n": N_}, attr_hook=lambda t: uc.get(t), where="_get_sigma")
-            sig[key] = tr3.expr(s.value, {})
+    rets_ = [r.value for r in ast.walk(gs) if isinstance(r, ast.Return) and r.value is not None]
+    r0 = core.resolve_name(gs, rets_[-1]) if rets_ else None
+    sig_name = r0.elts[0].id if isinstance(r0, ast.Tuple) and r0.elts and isinstance(r0.elts[0], ast.Name) else None
+    arms = [st for st in gs.body if isinstance(st, ast.If) and "_dist_func" in core.src(st.test) and "classical" in core.src(st.test)]
+    if sig_name is None or len(arms) != 1 or not isinstance(arms[0].test, ast.Compare) or not isinstance(arms[0].test.ops[0], (ast.Eq, ast.NotEq)):
+        raise AnalysisError("RandomDisplacements._get_sigma: sigma expressions vanished (no returned amplitude / no test on the distribution function)")
+    is_eq = isinstance(arms[0].test.ops[0], ast.Eq)
+    fpar = gs.args.args[2].arg if len(gs.args.args) > 2 else "T"
+    for key, arm in (("classical", arms[0].body if is_eq else arms[0].orelse), ("quantum", arms[0].orelse if is_eq else arms[0].body)):
+        tr3 = symalg.PyTranslator({fpar: T, "freqs": F}, attr_hook=lambda t: uc.get(t), call_hook=lambda node, tr_, env_: N_ if core.src(node.func) == "bose_einstein_dist" else None, where="_get_sigma")
+        env_ = {}
+        for st in arm:
+            if isinstance(st, ast.Assign) and len(st.targets) == 1 and isinstance(st.targets[0], ast.Name):
+                env_[st.targets[0].id] = tr3.expr(st.value, env_)
+        if sig_name in env_:
+            sig[key] = env_[sig_name]
     if set(sig) != {"classical", "quantum"}:
         raise AnalysisError("RandomDisplacements._get_sigma: sigma expressions vanished")
     okq, _ = symalg.is_zero(sp.simplify(sig["quantum"] ** 2 / M - want_q))
@@ -95,10 +108,11 @@ def run(rep: core.Report):
     returned = {r.value.id for r in ast.walk(gp) if isinstance(r, ast.Return) and isinstance(r.value, ast.Name)}
     trp = symalg.PyTranslator({**UNITS, gp.args.args[1].arg: F, gp.args.args[2].arg: T}, sub_hook=lambda t_, n_, tr_, env_: T if t_.startswith(gp.args.args[2].arg + "[") else None, where="_get_population")
     lenv = symalg.local_env(trp, gp)
+    filled = {x.targets[0].value.id for x in ast.walk(gp) if isinstance(x, ast.Assign) and isinstance(x.targets[0], ast.Subscript) and isinstance(x.targets[0].value, ast.Name)}
     for r in ast.walk(gp):
         v = None
-        if isinstance(r, ast.Return) and r.value is not None and not isinstance(r.value, (ast.Name, ast.Constant)):
-            v = r.value
+        if isinstance(r, ast.Return) and r.value is not None and not (isinstance(r.value, ast.Name) and r.value.id in filled) and not isinstance(core.resolve_name(gp, r.value), (ast.Name, ast.Constant)):
+            v = core.resolve_name(gp, r.value)
         if isinstance(r, ast.Assign) and isinstance(r.targets[0], ast.Subscript) and isinstance(r.targets[0].value, ast.Name) and r.targets[0].value.id in returned:
             v = r.value
         if v is not None:
@@ -126,7 +140,8 @@ def run(rep: core.Report):
         rets = [r.value for r in ast.walk(fn) if isinstance(r, ast.Return) and r.value is not None]
         if len(rets) != 1:
             raise AnalysisError(f"R19c: {fn.name}: expected one return")
-        v = rets[0].elts[0] if isinstance(rets[0], ast.Tuple) else rets[0]
+        r0 = core.resolve_name(fn, rets[0])
+        v = core.resolve_name(fn, r0.elts[0] if isinstance(r0, ast.Tuple) else r0)
         return v, symalg.open_expr(core.src(v))
 
     v_ii, e_ii = first_ret(sii)
